@@ -4,7 +4,13 @@
     Models: G = Core/GoSem.v (definitional interpreter of MiniGo, the fragment of Core/Syntax.v);
     Y = Core/Cfg.v (the CFG yaegi builds: start/tnext/fnext wiring of cfg.go for if/for/&&/||/
     break/continue, frame slots with the destination-slot shortcut, loopVarFor, and runCfg's loop).
-    The gap to the full property: functions, closures, composite data, switch, range, goto, labels
+    MiniGo, G and Y also contain switch statements (with and without a tag, init statement, several
+    expressions per clause, default anywhere, fallthrough, break): Y transcribes the clause loops of
+    switchStmt / switchIfStmt, the default swap of the pre-order pass and run.go _case; both models are run
+    against yaegi and compiled Go on generated programs and the clause wiring is tied to cfg.go
+    ([C01_wiring_matches_source]).  The simulation theorem [C01_core_partial] does not cover switch yet:
+    [wf] rejects it.  The deviations of yaegi on switch are the [C01_switch_*_refuted] theorems.
+    The gap to the full property: functions, closures, composite data, range, goto, labels
     are covered by the behavioural streams of the harness only (compiled Go as the oracle). *)
 From Verif Require Import Core.Syntax Core.GoSem Core.Cfg Core.Wf Core.Proofs Core.Wiring.
 
@@ -15,7 +21,8 @@ Definition C01_statement : Prop :=
 (** Every well-formed program (any nesting depth, any number of iterations) that terminates under
     Go's semantics -- normally or by a division by zero -- terminates under yaegi's CFG machine with
     the same printed output and the same ending.  [wf_program] is decidable; each of its clauses is
-    the negation of a known-finding region (for-init-only, loop-empty-body, loopvar-assign). *)
+    the negation of a known-finding region (for-init-only, loop-empty-body, loopvar-assign); the last
+    clause restricts the theorem to programs without switch statements (simulation not proved yet). *)
 Theorem C01_core_partial :
   forall p, wf_program p = true ->
   forall n out pk, GoSem.run n p = Done out pk -> exists m, Cfg.run m p = Done out pk.
